@@ -28,8 +28,15 @@ def parse_doc(doc: Any):
         return DznJsonAst(text).process()
 
 
-def make_select(sel, order_seed: Optional[int] = None):
+def make_select(sel, order_seed: Optional[int] = None, pool: Optional[dict] = None):
+    """A PortSelect for the encoded selection.  With `pool`, equal selections share one object
+    across configurations - the way a user builds several configurations from the same pieces."""
     from dznpy.adv_shell import PortSelect, PortWildcard  # pylint: disable=import-outside-toplevel
+    if pool is not None:
+        key = sel if isinstance(sel, str) else tuple(sorted(sel))
+        if key not in pool:
+            pool[key] = make_select(sel, order_seed)
+        return pool[key]
     if isinstance(sel, str):
         return PortSelect(getattr(PortWildcard, sel))
     names = list(sel)
@@ -42,7 +49,7 @@ def make_select(sel, order_seed: Optional[int] = None):
     return PortSelect(out)
 
 
-def make_ports_cfg(enc: dict, order_seed: Optional[int] = None):
+def make_ports_cfg(enc: dict, order_seed: Optional[int] = None, pool: Optional[dict] = None):
     from dznpy.adv_shell import PortsCfg, PortsSemanticsCfg, MultiClientPortCfg  # pylint: disable=import-outside-toplevel
     from dznpy.scoping import NamespaceIds  # pylint: disable=import-outside-toplevel
     mcc = None
@@ -52,14 +59,15 @@ def make_ports_cfg(enc: dict, order_seed: Optional[int] = None):
                                  claim_granting_reply_value=NamespaceIds(list(mc['reply'])),
                                  release_event_name=mc['release'])
     return PortsCfg(
-        provides=PortsSemanticsCfg(sts=make_select(enc['provides']['sts'], order_seed),
-                                   mts=make_select(enc['provides']['mts'], order_seed)),
-        requires=PortsSemanticsCfg(sts=make_select(enc['requires']['sts'], order_seed),
-                                   mts=make_select(enc['requires']['mts'], order_seed)),
+        provides=PortsSemanticsCfg(sts=make_select(enc['provides']['sts'], order_seed, pool),
+                                   mts=make_select(enc['provides']['mts'], order_seed, pool)),
+        requires=PortsSemanticsCfg(sts=make_select(enc['requires']['sts'], order_seed, pool),
+                                   mts=make_select(enc['requires']['mts'], order_seed, pool)),
         multiclient=mcc)
 
 
-def make_configuration(enc: dict, fc, order_seed: Optional[int] = None):
+def make_configuration(enc: dict, fc, order_seed: Optional[int] = None,
+                       pool: Optional[dict] = None):
     from dznpy.adv_shell import Configuration  # pylint: disable=import-outside-toplevel
     from dznpy.adv_shell.common import FacilitiesOrigin  # pylint: disable=import-outside-toplevel
     from dznpy.scoping import NamespaceIds  # pylint: disable=import-outside-toplevel
@@ -68,7 +76,7 @@ def make_configuration(enc: dict, fc, order_seed: Optional[int] = None):
         dezyne_filename=enc.get('filename', 'Model.dzn'), ast_fc=fc,
         output_basename_suffix=enc.get('suffix', 'Shell'),
         fqn_encapsulee_name=NamespaceIds(enc['encapsulee'].split('.')),
-        ports_cfg=make_ports_cfg(enc, order_seed),
+        ports_cfg=make_ports_cfg(enc, order_seed, pool),
         facilities_origin=FacilitiesOrigin.CREATE if enc.get('origin', 'create') == 'create'
         else FacilitiesOrigin.IMPORT,
         copyright=enc.get('copyright', 'Copyright (c) test'),
@@ -76,19 +84,46 @@ def make_configuration(enc: dict, fc, order_seed: Optional[int] = None):
         creator_info=enc.get('creator'), verbose=False)
 
 
-def build_files(enc: dict, fc, order_seed: Optional[int] = None) -> Dict[str, str]:
-    """Configure and build; returns {filename: contents} in the order returned."""
+def build_files(enc: dict, fc, order_seed: Optional[int] = None, builder=None,
+                pool: Optional[dict] = None) -> Dict[str, str]:
+    """Configure and build (with a fresh Builder unless one is handed in); returns
+    [(filename, contents, hash)] in the order returned."""
     from dznpy.adv_shell import Builder  # pylint: disable=import-outside-toplevel
-    cfg = make_configuration(enc, fc, order_seed)
+    cfg = make_configuration(enc, fc, order_seed, pool)
     with common.quiet():
-        result = Builder().build(cfg)
+        result = (builder or Builder()).build(cfg)
     return [(gc.filename, gc.contents, gc.hash) for gc in result.files]
 
 
-def outcome(enc: dict, doc: Any, fc=None) -> Dict[str, Any]:
-    """{'files': [(name, contents, hash)...]} or {'exc': classification}."""
+def equivalent_spellings(enc: dict, provides: List[str], requires: List[str]) -> List[dict]:
+    """Other ways to write the same STS/MTS assignment: a REMAINING next to an explicit set is
+    replaced by the explicit complement."""
+    out = []
+    for side, names in (('provides', provides), ('requires', requires)):
+        sel = enc[side]
+        for mine, other in (('sts', 'mts'), ('mts', 'sts')):
+            if sel[mine] == 'REMAINING' and isinstance(sel[other], list):
+                rest = sorted(set(names) - set(sel[other]))
+                if rest and not (side == 'provides'):
+                    out.append(dict(enc, **{side: {mine: rest, other: list(sel[other])}}))
+    return out
+
+
+def outcome(enc: dict, doc: Any, fc=None, warmups: Optional[List[dict]] = None) -> Dict[str, Any]:
+    """{'files': [(name, contents, hash)...]} or {'exc': classification}.  `warmups` are
+    configurations built first in the same process from shared PortSelect objects and one
+    shared Builder - a history that must not influence the result."""
     try:
         fc = fc if fc is not None else parse_doc(doc)
+        if warmups:
+            from dznpy.adv_shell import Builder  # pylint: disable=import-outside-toplevel
+            pool, builder = {}, Builder()
+            for warm in warmups:
+                try:
+                    build_files(warm, fc, builder=builder, pool=pool)
+                except Exception:  # pylint: disable=broad-except
+                    pass
+            return {'files': build_files(enc, fc, builder=builder, pool=pool)}
         return {'files': build_files(enc, fc)}
     except Exception as exc:  # pylint: disable=broad-except
         return {'exc': common.classify_exception(exc)}
